@@ -27,7 +27,8 @@ PY_TIES = [
 
 C_TIES = ["BPT.TieC." + n for n in (
     "c_min_capacity c_default_capacity c_header_bits c_ctor_rejects_eq c_leaf_split_mid_eq c_branch_split_mid_eq c_leaf_is_full_eq c_branch_is_full_eq "
-    "c_leaf_split_counts_eq c_branch_split_counts_eq c_refcount_sites_eq c_stamp_increments_eq c_iter_fail_fast_eq c_routing_eq c_alloc_via_type_slots_eq").split()]
+    "c_leaf_split_counts_eq c_branch_split_counts_eq c_refcount_sites_eq c_stamp_increments_eq c_iter_fail_fast_eq c_routing_eq c_alloc_via_type_slots_eq "
+    "c_iter_next_src_eq c_src_BPlusTree_iter_eq c_src_BPlusTree_keys_eq c_src_BPlusTree_items_eq c_src_BPlusTreeIterator_dealloc_eq").split()]
 
 # suites: name -> dict(kind, args per tier)
 #   kind "rust": bpt-harness gen <suite> ...
@@ -370,6 +371,7 @@ PROPS = {
             "BPT.Props.C13.no_out_of_bounds", "BPT.Props.C13.no_out_of_bounds_along_histories",
             "BPT.Props.C13.setitem_balanced", "BPT.Props.C13.delitem_balanced", "BPT.Props.C13.lookups_balanced",
             "BPT.Props.C13.dealloc_balanced", "BPT.Props.C13.owned_eq_slots_step", "BPT.Props.C13.capacity_exact",
+            "BPT.Props.C13.iterator_step_balanced", "BPT.Props.C13.stale_iterator_touches_nothing", "BPT.C.iterNext_refs",
             "BPT.Props.C13.Legacy.capacity_truncates", "BPT.Props.C13.Legacy.leaf_split_leaks",
             "BPT.C.insertLeaf_refs", "BPT.C.insertBranch_refs", "BPT.C.insertRec_refs", "BPT.C.deleteRec_refs", "BPT.C.setitem_refs",
             "BPT.C.new_spec",
@@ -381,6 +383,6 @@ PROPS = {
         ],
         "nontrivial": "as C12; in addition after every mutation sys.getrefcount of every tracked key and value object minus its baseline must equal the number of tree slots holding it (from _verif_dump), and zero after the tree is destroyed; the model's slot multiset is compared with the implementation's (`refs` lines); every generated history is replayed under AddressSanitizer; c-caps drives capacities 0, 3, 4, …, 65535, 65536, 65537, 65540, 131072, 2^31-1 through all three ways of constructing the object; a crash or sanitizer report of the driver process is an oracle failure with the operations executed so far as replay",
         "trusted_extra": ["CPython's allocator protocol for instances of Python subclasses (D10), GC traversal / tp_clear and use-after-free of the C heap are not expressible in the model: tie lemma c_alloc_via_type_slots_eq + subclass and wrapper lifecycles under the harness + AddressSanitizer replay + refcount/weakref audit observe them",
-                          "iterator steps take one new reference per yielded key / value (tie lemma on the INCREF sites); their balance is observed by the refcount audit, not proved"],
+                          "the iterator object's own reference on the tree object (Py_INCREF(self) in iter/items, Py_XDECREF in its dealloc) is pinned by source-text ties and observed by the lifecycle audit; tree-object reference counts are not part of the model (it counts key and value objects)"],
     },
 }
